@@ -50,8 +50,8 @@ add("C16", "exploration",
     "DESIGN.md 4/C16")
 add("C19", "exploration",
     "runtime resource monitor: differential TotalAlloc / bytes-read / largest-read-request meters around the recovering Open for images with and without a tail whose header claims huge lengths",
-    "For headers claiming key sizes up to 65535 and value sizes up to 2^31-1 (both types, 0-64 trailing bytes) appended to small and medium unclean images, the recovering Open is measured against the same image without the tail on the same file system and pinned seed: extra allocation must stay within 2*tail+32 KiB, extra segment bytes read within 2*tail+64 KiB, no single read request larger than the largest file+64 KiB, contents equal to the valid prefix. No timing is judged.",
-    "TotalAlloc is trusted as allocation meter; claims below the 32 KiB slack are not distinguishable from noise (bounded constant).",
+    "For headers claiming key sizes up to 65535 and value sizes up to 2^31-1 (both types, 0-64 trailing bytes) appended to small and medium unclean images, the recovering Open is measured against the same image without the tail on the same file system and pinned seed: extra allocation must stay within 2*tail+64 KiB, extra segment bytes read within 2*tail+64 KiB, no single read request larger than the largest file+64 KiB, contents equal to the valid prefix. No timing is judged.",
+    "TotalAlloc is trusted as allocation meter; claims below the 64 KiB slack are not distinguishable from noise (bounded constant).",
     "DESIGN.md 4/C19")
 add("C15", "exploration",
     "runtime resource/structure monitor: directory listing diff around every Compact, allowed-file whitelist, /proc/self/fd and /proc/self/maps meters, usability calls after compaction, coarse growth bound over steady-state cycles",
